@@ -533,9 +533,10 @@ def originAfter (z : Option Name) (o : Name) : Option Name :=
   | none => some o
   | some z => some z
 
-/-- `$ORIGIN <name>` -/
+/-- `$ORIGIN <name>`: the name is completed with the current origin (commit c444c98) and must then be absolute -/
 theorem lineStep_origin_dir (r : PState) (ot : List Nat) (o : Name) (rest : List Nat)
-    (hot : identOK ot = true) (hne : ot ≠ []) (hname : fromText ot none = .ok o)
+    (hot : identOK ot = true) (hne : ot ≠ []) (hn : (identToken ot).asName r.currentOrigin false none = .ok o)
+    (habs : isAbs o = true)
     (htok : r.tok = after 0 false (s2l "$ORIGIN " ++ (ot ++ 10 :: rest))) :
     lineStep r = .ok (.nothing, { r with tok := after 0 false rest, currentOrigin := some o,
                                          zoneOrigin := originAfter r.zoneOrigin o }) := by
@@ -547,8 +548,6 @@ theorem lineStep_origin_dir (r : PState) (ot : List Nat) (o : Name) (rest : List
     have := get_blank_word [32] (.ident ot) (10 :: rest) (blank_cons blank_nil)
       (by simp [Word.ok, hot, hne]) ⟨10, rest, rfl, by decide⟩
     simpa [Word.text, Word.token, Word.isQuoted, identToken] using this
-  have hn : (identToken ot).asName none false none = .ok o := by
-    simp [Token.asName, identToken, Token.isIdentifier, hname, chooseRelativity]
   unfold lineStep
   simp only [bind, Except.bind, liftT, htok, hg]
   have h1 : (identToken (s2l "$ORIGIN")).ttype ≠ .eof := by simp [identToken]
@@ -559,7 +558,7 @@ theorem lineStep_origin_dir (r : PState) (ot : List Nat) (o : Name) (rest : List
   have h6 : s2l "$ORIGIN" ≠ s2l "$TTL" := by decide
   have hval : (identToken (s2l "$ORIGIN")).value = s2l "$ORIGIN" := rfl
   simp only [h1, h2, h3, hval, h4, h5, h6, if_false, if_true, TState.getName, bind, Except.bind, hg2, hn, TState.getEol,
-    get_eol_after', Token.isEolOrEof, pure, Except.pure]
+    get_eol_after', Token.isEolOrEof, pure, Except.pure, habs, Bool.not_true, Bool.false_eq_true]
   simp only [originAfter]
   cases r.zoneOrigin <;> rfl
 
